@@ -84,7 +84,9 @@ ArcKeys == << <<"a", 0, 4>>, <<"a", 2, 4>>, <<"a", -1, 1>>, <<"a", 8, 2>> >>
 ArcOps ==
   {[op |-> "putr", a |-> "a", o |-> ArcKeys[i][2], l |-> ArcKeys[i][3], n |-> 2 + i] : i \in 1..3}
   \cup {[op |-> "getr", a |-> "a", o |-> 0, l |-> 4], [op |-> "isc", a |-> "a", o |-> 0, l |-> 4],
-        [op |-> "ovl", a |-> "a", o |-> 1, l |-> 2], [op |-> "ovl", a |-> "a", o |-> -1, l |-> 1],
+        \* queries that TOUCH a range without intersecting it: [0,2) ends where (2,4) starts, [4,6) starts where (0,4) ends
+        [op |-> "ovl", a |-> "a", o |-> 0, l |-> 2], [op |-> "ovl", a |-> "a", o |-> 4, l |-> 2],
+        [op |-> "ovl", a |-> "a", o |-> -1, l |-> 1],
         [op |-> "getf", a |-> "a", o |-> 0, l |-> 4], [op |-> "getf", a |-> "a", o |-> 8, l |-> 2],
         [op |-> "meta", a |-> "a"], [op |-> "tick"]}
 ArcCfgs == {[maxe |-> 100, dttl |-> "long", maxr |-> mr, urls |-> 1] : mr \in {1, 2}}
@@ -204,5 +206,6 @@ InvOps == SetToSeqM({[op |-> "sinv", strat |-> s, ent |-> en, size |-> sz, bytes
           \o SetToSeqM({[op |-> "wval", en |-> en, maxe |-> m] : en \in BOOLEAN, m \in {0, 1}})
 InvInit == cfg = [k |-> "inv"] /\ hist = <<>> /\ aux = [none |-> TRUE]
 InvNext == UNCHANGED <<cfg, hist, aux>>
-EmitInv == PrintT(<<"PROGRAM", ToJson([kind |-> "inv", cfg |-> [k |-> "inv"], keys |-> <<>>, ops |-> InvOps])>>)
+\* (state-level on purpose: TLC evaluates constant-level definitions once at start-up, in EVERY run of this module)
+EmitInv == (hist = <<>>) => PrintT(<<"PROGRAM", ToJson([kind |-> "inv", cfg |-> [k |-> "inv"], keys |-> <<>>, ops |-> InvOps])>>)
 =============================================================================
